@@ -883,6 +883,18 @@ func discharge(l *Log, extraPrelude string, obs []*Obligation, o dischargeOpts) 
 				file = file[:180]
 			}
 			file += fmt.Sprintf("_%d.smt2", ob.index)
+			// the query files of an obligation that came out as expected are removed again (a property like C29 writes
+			// 11 GB of them); those of a failing or undecided one stay for inspection. D2VC_KEEP_QUERIES=1 keeps all.
+			defer func() {
+				done := (ob.Smoke && ob.Result != "unsat") || (!ob.Smoke && ob.Result == "unsat")
+				if done && os.Getenv("D2VC_KEEP_QUERIES") == "" {
+					base := strings.TrimSuffix(file, ".smt2")
+					for _, f := range []string{file, base + ".focused.smt2", base + ".ground.smt2"} {
+						_ = os.Remove(f)
+						_ = os.Remove(f + ".cvc5")
+					}
+				}
+			}()
 			if !ob.Smoke {
 				// stage 1: focused slice (definitions of the goal's symbols + facts over them); unsat there is final
 				fq := l.buildQuery(ob, extraPrelude, true)
